@@ -374,6 +374,20 @@ pub fn c03_snips() -> Vec<Snip> {
     out.push(g("apply-result-of-callback", Kind::E("int"), "(apply(\"a\", shout) + 1)", "(apply(1, idi) + 1)"));
     out.push(g("second-of-tuple", Kind::E("int"), "(second((1, \"a\")) + 1)", "(second((\"a\", 1)) + 1)"));
     out.push(g("same-elements", Kind::E("any"), "same([1], \"a\")", "same([1], 2)"));
+    // operators on composites assembled from untyped parameters (the constraint sits on a tuple / list whose
+    // elements are still unknown when the helper is checked)
+    for (j, (id, op, l, r, ol, or)) in OP_MISMATCHES.iter().enumerate() {
+        if ["+", "-", "*", "==", "!=", "<"].contains(op) {
+            out.push(Snip::owned(format!("{}:via-tuples-of-parameters", id), Kind::E("any"), format!("hopt{}(1, {}, 2, {})", j, l, r), format!("hopt{}(1, {}, 2, {})", j, ol, or)));
+            out.push(Snip::owned(format!("{}:via-tuple-with-unknown-element-fixed-later", id), Kind::S, format!("ww :: fn x do\n t := (x, 1)\n zz :: t {} ({}, 2)\n t = ({}, 1)\nend", op, l, r), format!("ww :: fn x do\n t := (x, 1)\n zz :: t {} ({}, 2)\n t = ({}, 1)\nend", op, ol, or)));
+        }
+    }
+    // a field given twice in one blob literal: every given value is evaluated, so every one must have the field's type
+    let rep = |id: &str, kind: Kind, f: &str, t: &str| Snip::owned(format!("repeated-field:{}", id), kind, f.to_string(), t.to_string());
+    out.push(rep("first-value-wrong-type", Kind::E("any"), "P { x: \"one\", x: 1 }", "P { x: 2, x: 1 }"));
+    out.push(rep("first-value-wrong-operator", Kind::E("any"), "P { x: 1 + \"a\", x: 1 }", "P { x: 1 + 2, x: 1 }"));
+    out.push(rep("first-value-wrong-call", Kind::E("any"), "P { x: f2(1), x: 1 }", "P { x: f2(1, 2), x: 1 }"));
+    out.push(rep("last-value-wrong-type", Kind::E("any"), "P { x: 1, x: \"one\" }", "P { x: 1, x: 2 }"));
     // field / payload / parameter types that name a type declared further down the file
     let fwd = |id: &str, kind: Kind, f: &str, t: &str| Snip::owned(format!("later-declared-type:{}", id), kind, f.to_string(), t.to_string());
     out.push(fwd("blob-field", Kind::E("any"), "FA { b: 1 }", "FA { b: FB { x: 1 } }"));
@@ -389,6 +403,9 @@ pub fn c03_prelude() -> Vec<Top> {
     for (j, (_, op, ..)) in OP_MISMATCHES.iter().enumerate() {
         v.push(Top::Raw(format!("hop{} :: fn a, b ->\n    a {} b\nend", j, op)));
         v.push(Top::Raw(format!("hop2_{} :: fn a, b ->\n    hop{}(a, b)\nend", j, j)));
+        if ["+", "-", "*", "==", "!=", "<"].contains(op) {
+            v.push(Top::Raw(format!("hopt{} :: fn a, b, c, d ->\n    (a, b) {} (c, d)\nend", j, op)));
+        }
     }
     for (j, (_, op, ..)) in UN_MISMATCHES.iter().enumerate() {
         v.push(Top::Raw(format!("uop{} :: fn a ->\n    {}a\nend", j, op)));
@@ -525,6 +542,8 @@ pub fn c04_snips() -> Vec<Snip> {
             out.push(Snip::owned(format!("pure-read-mutable-after-shadowing-scope:{}", sn), Kind::SPure, format!("{}\nzz :: m", sc.replace("{D}", "m :: 5")), format!("{}\nzz :: k", sc.replace("{D}", "k :: 5"))));
         }
     }
+    out.push(Snip::owned("repeated-field:impure-call-in-first-value".into(), Kind::SPure, "zz :: P { x: idi(1), x: 0 }".into(), "zz :: P { x: idp(1), x: 0 }".into()));
+    out.push(Snip::owned("repeated-field:mutable-read-in-first-value".into(), Kind::SPure, "zz :: P { x: m, x: 0 }".into(), "zz :: P { x: k, x: 0 }".into()));
     for (dn, dm, dc) in decls {
         for (un, u) in uses {
             for (sn, sh) in shells {
